@@ -12,7 +12,7 @@ fn main() {
         &[
             "E2 drives Receiver::exec, tokio::send/flush futures and all sender calls from one thread; because all state shared by the halves is behind one mutex and the receiver runs at most one critical section between two suspension points, every lock-granularity interleaving of the two-thread system corresponds to a placement of sender operations between receiver steps",
             "the hand-off instant is observed through when_empty callbacks (documented to fire at a point where the current batch is empty) and through the processor invocation",
-            "documented defaults of emit_batcher::bounded are taken as given: at most 10 retries per batch, back-off capped at 10 s, idle wait capped at 500 ms",
+            "'bounded' is judged against generous absolute bounds (<= 64 attempts per batch, retry waits <= 10 min, idle waits <= 1 min), not against the current constants of emit_batcher::bounded; the retry budget is learned from the run and must be identical for every batch that is given up and at least one retry",
             "E7 samples OS schedules (it does not own them); its oracles are ticket-ordered history invariants that hold for every interleaving; the 30 s watchdogs are the only use of wall-clock time",
             "condvar/oneshot wake-up paths (sync.rs, tokio.rs) are only exercised by E7, i.e. sampled",
         ],
